@@ -25,6 +25,7 @@ from rules.common import callee_closure
 DEPS = {
     'C03': ['C01', 'C02'],
     'C04': ['C03', 'C01', 'C02'],
+    'C05': ['C03'],
     'C08': ['C03', 'C01', 'C02'],
     'C10': ['C03'],
     'C11': ['C03', 'C01', 'C02'],
@@ -39,6 +40,9 @@ DEPS = {
 ROOT_FILTER = {
     'C04': re.compile(r"^(<(&'a mut S|dasp_signal::(AddAmp|MulAmp|ScaleAmp|OffsetAmp|ScaleAmpPerChannel|OffsetAmpPerChannel|ClipAmp|Inspect|Map|ZipMap|Delay)<[^>]*>) as dasp_signal::Signal>::\w+"
                       r"|dasp_signal::Signal::(add_amp|mul_amp|scale_amp|offset_amp|scale_amp_per_channel|offset_amp_per_channel|clip_amp|inspect|map|zip_map|delay))$"),
+    # C05 evaluates is_exhausted of every Signal impl; what its statement needs from frames is what the iterator-backed
+    # sources and the interleaved-sample sink do with them (from_samples, EQUILIBRIUM, channels)
+    'C05': re.compile(r".*(FromIterator|FromInterleavedSamplesIterator|IntoInterleavedSamples|UntilExhausted|dasp_signal::Take|::from_iter$|::from_interleaved_samples_iter$|::into_interleaved_samples$|::until_exhausted$|::take$)"),
 }
 
 
